@@ -893,6 +893,10 @@ func (t *queryTerm) QueryConditions(pc *parserContext) (ConditionsSet, error) {
 }
 
 func (cs Conditions) invert() ConditionsSet {
+	if len(cs) == 0 {
+		// the empty conjunction is true, its negation matches nothing
+		return ConditionsSet{Conditions{&impossibleCondition}}
+	}
 	// !(a & b & c) == !a | !b | !c
 	res := ConditionsSet(nil)
 	for _, c := range cs {
